@@ -14,7 +14,13 @@ echo "|---|---|---|---|---|"
 miss=0
 for d in "${dirs[@]}"; do
   id=$(basename $d); prop=${id%%-*}
-  o=$(timeout 2400 tools/with_patch.sh $d/patch.diff ./check $prop quick 2>&1); code=$?
+  if [ "$prop" = "C15" ]; then
+    # the probe and the scheduler engine first; the Miri engine (minutes) only if they stay silent
+    o=$(VERIF_NO_MIRI=1 timeout 2400 tools/with_patch.sh $d/patch.diff ./check $prop quick 2>&1); code=$?
+    if [ $code -eq 0 ]; then o=$(timeout 2400 tools/with_patch.sh $d/patch.diff ./check $prop quick 2>&1); code=$?; fi
+  else
+    o=$(timeout 2400 tools/with_patch.sh $d/patch.diff ./check $prop quick 2>&1); code=$?
+  fi
   first=$(echo "$o" | grep -m1 -A1 "^VIOLATION" | tail -1 | cut -c1-160 | tr '|' '/')
   case $code in 1) r="yes";; 0) r="NO"; miss=$((miss+1));; *) r="ERR($code)"; miss=$((miss+1));; esac
   python3 - "$d" "$r" "$first" >> $out <<'PY'
